@@ -3,9 +3,8 @@ The x86 back-end model satisfies the `FpRefines` interface (so every GF(p²) the
 agreement theorem applies to it), with representation domain `a < 2^B` and abstraction
 `xval a = a · R⁻¹ ∈ ZMod q`.
 
-Proved here from the `% q` specifications of SqiProofs.GfX86: zero, one, add, sub, neg, mul, half, isZero,
+Proved here from the `% q` specifications of SqiProofs.GfX86: zero, one, add, sub, neg, mul, sqr, half, isZero,
 isEqual, select, cswap, setSmall, encode.  Taken as explicit hypotheses (`X86Cited`):
-  * `sqr`  — `SquareOK P` (proved at level 1; FALSE at levels 3 and 5 on the pinned tree: lost carry);
   * `inv`, `isSquare` — correctness of Pornin's binary GCD (outer-iteration invariant proved in
     SqiProofs.GfX86Inv, convergence within the fixed iteration counts cited from eprint 2020/972);
   * `sqrt` — that the exponent chain computes `a^((q+1)/4)` (the range / parity / flag facts are proved in
@@ -57,7 +56,6 @@ theorem xval_zero_iff (hP : IsLvl P) {a : Nat} : xval P a = 0 ↔ a % P.q = 0 :=
 
 /-- the hypotheses that are cited / not proved for the x86 model (see the file header) -/
 structure X86Cited (P : X86Params) [Fact P.q.Prime] : Prop where
-  squareOK : SquareOK P
   inv : ∀ a, a < 2 ^ P.B → (invert P a).1 < 2 ^ P.B ∧ xval P (invert P a).1 = (xval P a)⁻¹
   isSquare : ∀ a, a < 2 ^ P.B → (fp_is_square P a = 0 ∨ fp_is_square P a = T32) ∧
     (fp_is_square P a = T32 ↔ IsSquare (xval P a))
@@ -106,7 +104,7 @@ theorem x86_refines (hP : IsLvl P) (hc : X86Cited P) :
     unfold xval; field_simp; linear_combination this
   sqr := by
     intro a ha
-    obtain ⟨h1, h2⟩ := hc.squareOK a ha
+    obtain ⟨h1, h2⟩ := squareOK P hP a ha
     refine ⟨h1, ?_⟩
     show xval P (square P a) = xval P a * xval P a
     have := cast_eq_of_mod_eq h2
@@ -124,7 +122,7 @@ theorem x86_refines (hP : IsLvl P) (hc : X86Cited P) :
   inv := fun {a} ha => hc.inv a ha
   sqrt := by
     intro a ha
-    obtain ⟨h1, h2, _, _⟩ := sqrt_spec P hP hc.squareOK a ha
+    obtain ⟨h1, h2, _, _⟩ := sqrt_spec P hP (squareOK P hP) a ha
     refine ⟨h1, ?_, hc.sqrtRoot a ha⟩
     show (xval P (sqrt P a).1).val % 2 = 0
     have hR : (sqrt P a).1 < P.R := lt_trans h1 (by rcases hP with rfl | rfl | rfl <;> decide)
